@@ -82,25 +82,39 @@ def vec_from_key(k: str) -> dict:
     return v
 
 
+def is_shadow(x: str) -> bool:
+    """s0, s1, …: the USER-group accounts with odd stored names (c15_world.SHADOWS)"""
+    return x.startswith("s") and x[1:].isdigit()
+
+
 def actor(v: dict) -> str:
     if v["session"] != "none":
         return v["session"]
-    if v["token"] in ROLES:
+    if v["token"] not in ("none", "guest"):
         return v["token"]
     return "anonymous"
 
 
 def held(v: dict) -> set:
     """the accounts the caller has proved to hold (the guest account is nobody's)"""
-    return {x for x in (v["session"], v["token"]) if x in ROLES}
+    return {x for x in (v["session"], v["token"]) if x not in ("none", "guest")}
+
+
+def model_ident(x: str) -> str:
+    """identity class of an account in the Lean model: every USER-group-only account is `user`"""
+    return "user" if is_shadow(x) else x
 
 
 def model_line(row: dict, v: dict) -> str:
     gs = ",".join(guard_token(g) for g in chain(row)) or "-"
     fl = "".join("1" if v[n] else "0" for n in BOOL_FLAGS)
-    session = "nobody" if v["session"] == "none" else v["session"]
-    token = v["token"] + (":refresh" if v["refresh"] and v["token"] != "none" else "")
-    target = "nobody" if v["target"] == "victim" else v["target"]
+    session = "nobody" if v["session"] == "none" else model_ident(v["session"])
+    token = model_ident(v["token"]) + (":refresh" if v["refresh"] and v["token"] != "none" else "")
+    if is_shadow(v["target"]):
+        # a shadow account named in the URL is the caller's own account or somebody else's
+        target = "user" if v["target"] in (v["session"], v["token"]) else "nobody"
+    else:
+        target = "nobody" if v["target"] == "victim" else v["target"]
     return f"authz {row['kind']} {session} {token} {target} {fl} {gs}"
 
 
@@ -158,8 +172,8 @@ def url_values(w, row: dict, exists: bool, target: str) -> dict:
 def username_of(w, pk: int) -> str:
     if not USERNAMES:
         USERNAMES.update({w.ids["victim"]: "c15victim", w.ids["guest"]: "_AnonymousUser_"})
-        for name, upk in w.ids["users"].items():
-            USERNAMES[upk] = name
+        for apk, name in w.ids["all_accounts"]:
+            USERNAMES.setdefault(apk, name)
     return USERNAMES.get(pk, "nobody")
 
 
@@ -211,8 +225,7 @@ def body_for(w, row: dict, role: str, values: dict):
                         "password": "new-pw-1234", "confirmPassword": "new-pw-1234",
                         "userGroup": True}, {}
     if key == ("api-login", "POST"):
-        from c15_world import CREDS
-        u, p = CREDS.get(role, ("nobody", "wrong"))
+        u, p = w.creds.get(role, ("nobody", "wrong"))
         return "json", {"username": u, "password": p, "rememberme": False}, {}
     if key == ("clearkey", "POST"):
         return "json", {"kids": ["AAAAAAAAAAAAAAAAAAAAAA"], "type": "temporary"}, {}
@@ -432,9 +445,11 @@ def execute(w, row: dict, v: dict, overlay: str = "minimal", restore: bool = Tru
             "bearer_token_of": v["token"] + (" (refresh token)" if v["refresh"] and v["token"] != "none" else ""),
             "csrf_cookie_and_tokens_of": role}
     # the request sequence that reproduces the case from scratch
+    def lab(x):
+        return f"{x} (USER-group account stored as {w.creds[x][0]!r}, pk {w.ids['users'][x]})" if is_shadow(x) else x
     seq = []
     if v["session"] != "none":
-        seq.append(f"POST /api/login as '{v['session']}' -> session cookie"
+        seq.append(f"POST /api/login as '{lab(v['session'])}' -> session cookie"
                    + (", access and refresh token" if v["token"] == v["session"] else ""))
     if v["token"] == "guest":
         seq.append("GET /api/refresh/access without a refresh token -> access token of the guest account")
